@@ -17,6 +17,8 @@ def run(tier, corrupt=0):
     vlib.build_harness()
     common.mc_phase(c, "MC_Calendar", cfg="MC_Calendar" if tier == "quick" else "MC_Calendar_thorough",
                     workers=1 if tier == "quick" else vlib.NCPU, require_actions=False)
+    common.mc_phase(c, "MC_Selectors", workers=4, require_actions=False, timeout=600)
+    vlib.tlc_expect_violation("MC_Selectors", cfg="MC_Selectors_wrong", workers=1)
     if os.path.exists(os.path.join(vlib.SPEC, "MC_DayEval.cfg")):
         common.mc_phase(c, "MC_DayEval", cfg="MC_DayEval" if tier == "quick" else "MC_DayEval_thorough",
                         workers=8 if tier == "quick" else vlib.NCPU, require_actions=False, timeout=3600, heap="8g")
